@@ -20,8 +20,9 @@ pub struct Obj {
     pub slots: Vec<(Id, Id)>,
     /// Weak handles stored in the value: (weak id, target object, target epoch)
     pub wslots: Vec<(Id, Id, u32)>,
-    /// address of the current allocation
+    /// address of the current allocation, and the allocator's generation of that block
     pub addr: usize,
+    pub addr_gen: u32,
     pub ever_recorded: bool,
     pub selfsame: u32,
     /// some bookkeeping call (incl. same-handle self adoption) has touched the table:
@@ -36,6 +37,7 @@ pub struct Obj {
 #[derive(Clone, Debug)]
 pub struct OldAlloc {
     pub addr: usize,
+    pub gen: u32,
     pub obj: Id,
     pub epoch: u32,
 }
